@@ -2,7 +2,7 @@
 import re
 
 from analysis import (fullness_test, test_edges, option_edges, reachable_flags, constant_discriminant_edges, Prov, Guards, FlagEngine, fmt, fmt_short, walk, roots, short, comparison, find_calls, callee_matches,
-                      must_pass, const_int_of, propagate)
+                      must_pass, const_int_of, propagate, field_writes, canon)
 from facts import AnchorError, strip_closure
 from harness import Rule, guarded
 from c01 import bool_pass_edges
@@ -314,6 +314,25 @@ def r4(ctx):
                "follows the time of the last report and the wrong node is treated as least recently active", loc=us.loc(us.line))
     rule.check(ok, "update_status: when nodes[0] becomes connected the pending node is dropped before the node is re-inserted", "update_status|pending-kept",
                "update_status can leave the pending node in place although the least-recently-active node re-established its connection (it would be evicted)", loc=us.loc(us.line))
+    # the moment a pending node becomes eligible is fixed when it is queued (now + pending_timeout) and never moved afterwards
+    bad = []
+    n_ok = 0
+    for wb, wbi, wline, kind, e in field_writes(facts, r"crate::kbucket::bucket::PendingNode", "replace"):
+        nm = wb.path.split("::")[-1]
+        if wb.path.endswith("Clone>::clone") or nm == "set_ready_at":      # the derived copy; the test helper (cfg(test)-only callers)
+            continue
+        c = canon(e)
+        lin = c[0] == "call" and re.search(r"ops::Add(<.*>)?>?::add$|Instant::checked_add$", short(c[1])) and len(c[2]) == 2 and \
+            fmt_short(c[2][0]) == "Instant::now()" and fmt_short(c[2][1]).endswith(".pending_timeout")
+        if kind == "construct" and lin:
+            n_ok += 1
+        else:
+            bad.append("%s %ss it as %s" % (nm, kind, fmt_short(e)[:80]))
+    callers = sorted({strip_closure(pth) for pth, bb in facts.bodies.items() for bi, t in bb.calls() if (t.callee() or "").endswith("PendingNode::<TNodeId, TVal>::set_ready_at")
+                      and "::tests::" not in pth and "::test::" not in pth})
+    rule.check(n_ok >= 1 and not bad and not callers, "PendingNode.replace is set once, to now + pending_timeout, when the node is queued", "pending|eligibility-moved",
+               "the instant at which a pending node becomes eligible is written elsewhere or differently (%s%s): a pending node can enter a full bucket before its timeout"
+               % ("; ".join(bad), ("; set_ready_at called from " + ", ".join(callers)) if callers else ""), loc=b.loc(b.line))
     return rule
 
 
